@@ -122,6 +122,23 @@ func c15(r *Run) {
 		}
 	}
 
+	// the fields that decide how the listener's descriptor is closed are set once, by parseFD
+	for _, f := range w.Funcs {
+		for _, field := range []string{"file", "fd"} {
+			for _, ins := range findIns(f, func(i ssa.Instruction) bool { return isStoreToField(i, "listener", field) }) {
+				ok := w.FnName(f) == "(*listener).parseFD"
+				r.ob("C15.R2:who-writes-listener."+field+":"+w.FnName(f), "listener."+field+" is written only when the listener is built (parseFD): Close does not rewrite the fields its own guard reads, so a second Close takes the same - idempotent - branch and never falls back to a raw close of a stale number", f, ins, ok, "in "+w.FnName(f), false)
+			}
+		}
+	}
+	// detaching is monotone: once the descriptor was handed to the caller netpoll never closes it
+	for _, f := range w.Funcs {
+		for _, ins := range findIns(f, func(i ssa.Instruction) bool { return isStoreToField(i, "netFD", "detaching") }) {
+			k, okc := constInt(ins.(*ssa.Store).Val)
+			r.ob("C15.R4:detaching-monotone:"+siteKey(w, ins), "netFD.detaching is only ever set to true: the close callbacks may run later (deferred to the handler task) and must still see the descriptor as handed over", f, ins, okc && k == 1, "store of "+shortVal(ins.(*ssa.Store).Val), false)
+		}
+	}
+
 	// ---- R3 once-guards and pairing ---------------------------------------------------------------
 	c05OnceGuards(r, ro, &Search{})
 	{
